@@ -3,7 +3,7 @@ from __future__ import annotations
 
 import ast
 
-from .. import astu, flow, types
+from .. import astu, evid, flow, types
 from ..cfg import cfg_of
 from ..model import AnalysisError, Func
 from ..report import key_of
@@ -23,24 +23,31 @@ def r1(R, repo):
   regs = [n for n in mod.tree.body if isinstance(n, ast.Expr) and isinstance(n.value, ast.Call) and astu.call_name(n.value) == 'register_variable_name']
   names = [astu.const_str(n.value.args[0]) for n in regs]
   tys = [astu.src(n.value.args[1]) for n in regs]
-  R.check(len(regs) >= 5 and len(set(names)) == len(names) and len(set(tys)) == len(tys), key_of(mod.rel, 'built-in registrations are one-to-one'), mod,
+  R.judge(len(regs) >= 5, len(set(names)) == len(names) and len(set(tys)) == len(tys), key_of(mod.rel, 'built-in registrations are one-to-one'), mod,
           'module-level register_variable_name calls must map distinct names to distinct types: %s' % list(zip(names, tys)))
   want = {'params': 'Param', 'batch_stats': 'BatchStat', 'cache': 'Cache', 'intermediates': 'Intermediate', 'perturbations': 'Perturbation'}
   for k, v in want.items():
-    R.check(dict(zip(names, tys)).get(k) == v, key_of(mod.rel, '%s <-> %s' % (k, v)), mod, 'Linen collection %r must map to nnx.%s' % (k, v))
+    R.judge(len(regs) >= 5, dict(zip(names, tys)).get(k) == v, key_of(mod.rel, '%s <-> %s' % (k, v)), mod, 'Linen collection %r must map to nnx.%s' % (k, v))
   writers = set()
   for f in mod.funcs.values():
     for n in astu.body_walk(f.node):
       if isinstance(n, ast.Subscript) and isinstance(n.ctx, (ast.Store, ast.Del)) and astu.src(n.value) == 'VariableTypeCache':
         writers.add(f.qual)
-  R.check(writers == {'variable_type_from_name', 'register_variable_name'}, key_of(mod.rel, 'registry written only by its two registration functions'), mod, 'VariableTypeCache is written by %s' % sorted(writers))
+  R.judge(bool(writers), writers <= {'variable_type_from_name', 'register_variable_name'}, key_of(mod.rel, 'registry written only by its two registration functions'), mod, 'VariableTypeCache is written by %s' % sorted(writers))
   rg = mod.func('register_variable_name')
   c = cfg_of(rg)
   st = [n for n in c.nodes if isinstance(n.stmt, ast.Assign) and astu.src(n.stmt.targets[0]) == 'VariableTypeCache[name]']
   t = [n for n in c.nodes if n.kind == 'if' and astu.src(n.ast) == 'not overwrite and name in VariableTypeCache']
   rs = [n for n in c.nodes if isinstance(n.stmt, ast.Raise)]
   ok = len(st) == 1 and len(t) == 1 and any(c.edge_guarded(r_, t[0], 'T') for r_ in rs) and c.edge_guarded(st[0], t[0], 'F') and astu.is_const(astu.param_default(rg.node, 'overwrite'), False)
-  R.check(ok, key_of(rg, 'refuses to rebind a name without overwrite'), rg, 'register_variable_name must raise when the name is already mapped and overwrite is false')
+  may, must = evid.reach_env(c, {'overwrite': False, 'name in VariableTypeCache': True, 'name not in VariableTypeCache': False})
+  key = key_of(rg, 'refuses to rebind a name without overwrite')
+  if st and any(s_ in must for s_ in st):
+    R.fail(key, rg, 'register_variable_name rebinds a name that is already mapped although overwrite is false: `%s` is reached' % astu.short([s_ for s_ in st if s_ in must][0].stmt))
+  elif ok or (st and not any(s_ in may for s_ in st) and astu.is_const(astu.param_default(rg.node, 'overwrite'), False)):
+    R.ok(key, rg)
+  else:
+    R.unsure(key, rg, 'register_variable_name must raise when the name is already mapped and overwrite is false')
   vn = mod.func('variable_name_from_type')
   R.check('if typ == t' in astu.src(vn.node) and 'register_variable_name(name, typ)' in astu.src(vn.node), key_of(vn, 'exact type match, else register under the class name'), vn,
           'variable_name_from_type must look the type up by equality (not isinstance) and otherwise register it under its class name')
@@ -77,7 +84,7 @@ def r2(R, repo):
         bad = (n, '`%s` mutates the converted object' % astu.short(n))
       if isinstance(n, ast.Call) and astu.call_name(n) in ('setattr', 'object.__setattr__', 'delattr') and n.args and astu.src(n.args[0]) in aliases:
         bad = (n, '`%s` sets an attribute on the converted object' % astu.short(n))
-    R.check(bad is None, key_of(f, 'input not mutated'), (f, bad[0]) if bad else f, '%s: %s' % (f.qual, bad[1] if bad else ''))
+    R.check(bad is None, key_of(f, 'input not mutated'), (f, bad[0]) if bad else f, '%s: %s' % (f.qual, bad[1] if bad else ''), evidence=True)
   # from_nnx_metadata renames keys in the dict it is given: every caller must hand it a fresh dict
   n_call = 0
   for m in repo.mods_with('from_nnx_metadata('):
@@ -85,7 +92,10 @@ def r2(R, repo):
       for x in astu.func_calls(f):
         if astu.call_tail(x) == 'from_nnx_metadata':
           n_call += 1
-          R.check(len(x.args) == 1 and isinstance(x.args[0], ast.Dict), key_of(f, 'from_nnx_metadata receives a fresh dict'), (f, x),
+          a0_ = x.args[0] if x.args else None
+          fresh_ = a0_ is not None and any(isinstance(e_, (ast.Dict, ast.DictComp)) or (isinstance(e_, ast.Call) and astu.call_name(e_) in ('dict', 'copy.copy', 'copy.deepcopy')) for e_ in evid.expand(f, a0_) if isinstance(e_, ast.AST))
+          shared_ = a0_ is not None and (isinstance(a0_, ast.Attribute) or (isinstance(a0_, ast.Name) and a0_.id in astu.params(f.node) and not [d for d in flow.defs(f, a0_.id) if isinstance(d[0], ast.AST)]))
+          R.judge(fresh_ or shared_, fresh_, key_of(f, 'from_nnx_metadata receives a fresh dict'), (f, x),
                   'from_nnx_metadata pops keys from its argument; it must be called with a freshly built dict, got `%s`' % astu.short(x.args[0] if x.args else x))
   R.require(n_call >= 1, 'no from_nnx_metadata call found')
 
@@ -103,7 +113,7 @@ def r3(R, repo):
   ok = len(conv) == 1 and c.edge_guarded(conv[0], t[0], 'T') and len(lp) == 1 and astu.src(lp[0].ast) == 'nnx_attrs.items()' and len(sets) >= 1
   firsts = [m for m, lab in c.succ[lp[0]] if lab == 'T'] if lp else []
   ok = ok and all(s in sets or lp[0] not in c.reach([s], avoid=sets) for s in firsts)
-  R.check(ok, key_of(f, 'every updated attribute is stored on the wrapper'), f, 'with mutable collections, every attribute converted from the returned updates must be stored on self')
+  R.judge(len(conv) == 1 and len(lp) == 1, ok, key_of(f, 'every updated attribute is stored on the wrapper'), f, 'with mutable collections, every attribute converted from the returned updates must be stored on self')
   unp = [n for n in c.nodes if isinstance(n.stmt, ast.Assign) and astu.src(n.stmt) == 'out, updates = out' and c.edge_guarded(n, t[0], 'T')]
   R.check(len(unp) == 1, key_of(f, '(out, updates) unpacked'), f, 'the (output, updates) pair returned by apply must be unpacked so that only the output is returned')
   # existing dict attributes are deep-merged, the update winning
@@ -120,7 +130,14 @@ def r3(R, repo):
       okm = True
     else:
       msg = '`%s` is not a recursive merge of (stored tree, update) with the update winning: a shallow `|`/dict() replaces a nested sub-dict and drops the sibling variables stored next to the updated ones; merging in the other order keeps stale values' % astu.short(v)
-  R.check(okm, key_of(f, 'update deep-merged into the stored attribute, update wins'), (f, merged[0].stmt) if merged else f, 'ToNNX.__call__: ' + msg)
+  vm = merged[0].stmt.value.args[2] if len(merged) == 1 else None
+  def _shallow(e):
+    return (isinstance(e, ast.BinOp) and isinstance(e.op, ast.BitOr)) or (isinstance(e, ast.Dict) and None in e.keys) or \
+        (isinstance(e, ast.Call) and astu.call_name(e) == 'dict' and (len(e.args) + len(e.keywords)) >= 2)
+  cands = [e for s_ in sets for e in evid.expand(f, s_.stmt.value.args[2]) if isinstance(e, ast.AST)] + [d[0] for d in flow.defs(f, 'value') if isinstance(d[0], ast.AST)]
+  shallow = (vm is not None and _shallow(vm)) or any(_shallow(e) for e in cands)
+  swapped = vm is not None and isinstance(vm, ast.Call) and astu.call_tail(vm) == '_recursive_merge' and [astu.src(a) for a in vm.args] == ['value', 'original_tree']
+  R.judge(okm or shallow or swapped, okm, key_of(f, 'update deep-merged into the stored attribute, update wins'), (f, merged[0].stmt) if merged else f, 'ToNNX.__call__: ' + msg)
   rm = repo.func(BV, '_recursive_merge')
   src = astu.src(rm.node)
   ps = astu.params(rm.node)
@@ -147,7 +164,7 @@ def r3(R, repo):
     app_up = [u for u in ups if cg.edge_guarded(u, it[0], 'F')]
     app_call = [x for x in calls if cg.edge_guarded(x, it[0], 'F')]
     ok = len(init_up) == 1 and len(app_up) == 1 and len(app_call) == 1 and app_up[0] in cg.reach(app_call) and app_call[0] not in cg.reach(app_up)
-  R.check(ok, key_of(g, '_update_variables after the module ran (apply) / after construction (init)'), g, 'ToLinen.__call__ must write the module state back with _update_variables after calling the module (apply path) and for the freshly built module (init path)')
+  R.judge(len(ups) == 2 and len(it) == 1 and len(calls) == 2, ok, key_of(g, '_update_variables after the module ran (apply) / after construction (init)'), g, 'ToLinen.__call__ must write the module state back with _update_variables after calling the module (apply path) and for the freshly built module (init path)')
   uv = bw.func('ToLinen._update_variables')
   cu = cfg_of(uv)
   puts = [n for x in astu.func_calls(uv) if astu.src(x.func) == 'self.put_variable' for n in cu.nodes_for(x)]
@@ -156,7 +173,7 @@ def r3(R, repo):
     call = [x for x in ast.walk(p_.stmt) if isinstance(x, ast.Call) and astu.src(x.func) == 'self.put_variable'][0]
     col = astu.src(call.args[0])
     tests = [t_ for t_ in cu.nodes if t_.kind == 'if' and astu.src(t_.ast) == 'self.is_mutable_collection(%s)' % col]
-    R.check(len(tests) == 1 and cu.edge_guarded(p_, tests[0], 'T'), key_of(uv, 'put_variable(%s, …) only when mutable' % col), (uv, p_.stmt), 'the collection %s must be written only when it is mutable' % col)
+    R.judge(len(tests) == 1, len(tests) == 1 and cu.edge_guarded(p_, tests[0], 'T'), key_of(uv, 'put_variable(%s, …) only when mutable' % col), (uv, p_.stmt), 'the collection %s must be written only when it is mutable' % col)
   cd = types.single_def(uv.node, 'collection')
   R.check(cd is not None and astu.src(cd).startswith('variablelib.variable_name_from_type(typ'), key_of(uv, 'collection named after the Variable type'), uv, 'each type\'s state must be written to the collection named by variable_name_from_type(typ)')
   R.check("self.put_variable('nnx', 'graphdef', gdef)" in astu.src(uv.node), key_of(uv, "graphdef stored under ('nnx', 'graphdef')"), uv, "the graphdef must be stored under ('nnx', 'graphdef'), where __call__ reads it")
@@ -175,7 +192,8 @@ def r3(R, repo):
     ok = isinstance(first, ast.UnaryOp) and isinstance(first.op, ast.USub) and astu.src(first.operand).startswith('parent_count[')
   pc = flow.defs(sv, 'parent_count')
   ok = ok and 'issubclass(p, variablelib.Variable)' in astu.src(sv.node) and 't.mro()' in astu.src(sv.node)
-  R.check(ok, key_of(sv, 'sorted by number of Variable ancestors, descending, as the primary key'), sv,
+  keyl = astu.kwarg(rets[0], 'key') if len(rets) == 1 and isinstance(rets[0], ast.Call) and astu.call_name(rets[0]) == 'sorted' else None
+  R.judge(isinstance(keyl, ast.Lambda) and 'parent_count' in astu.src(keyl), ok, key_of(sv, 'sorted by number of Variable ancestors, descending, as the primary key'), sv,
           'sort_variable_types must order types by -(number of Variable classes in the MRO) as the primary key, so that a subclass always precedes its base')
 
 
@@ -192,7 +210,7 @@ def r4(R, repo):
     m = repo.mod(rel)
     to, fr = m.func(cls + '.to_nnx_metadata'), m.func(cls + '.from_nnx_metadata')
     rt, rf = renames(to), renames(fr)
-    R.check(sorted(rt) == sorted(want) and sorted(rf) == sorted((b, a) for a, b in want), key_of(m.rel, '%s: to/from rename %s' % (cls, want)), to,
+    R.judge(len(rt) == len(want) and len(rf) == len(want), sorted(rt) == sorted(want) and sorted(rf) == sorted((b, a) for a, b in want), key_of(m.rel, '%s: to/from rename %s' % (cls, want)), to,
             '%s.to_nnx_metadata renames %s but from_nnx_metadata renames %s (must be exact inverses)' % (cls, rt, rf))
     R.check('fields = {x.name for x in dataclasses.fields(cls)}' in astu.src(fr.node) and 'if k in fields' in astu.src(fr.node), key_of(fr, 'only dataclass fields passed to the constructor'), fr,
             '%s.from_nnx_metadata must pass only the dataclass fields to the constructor' % cls)
